@@ -915,9 +915,12 @@ pub fn huge_perms(u: &Universe, r: &mut Rng) -> [Vec<u32>; 5] {
                 }
                 _ => r.below(limit),
             } as u32;
-            if seen.insert(x) {
-                out.push(x);
+            // an exhausted fuzzer tape answers 0 forever: probe linearly instead of drawing again
+            let mut x = x;
+            while !seen.insert(x) {
+                x = (x + 1) % limit as u32;
             }
+            out.push(x);
         }
         out
     }
